@@ -423,6 +423,108 @@ def explore_sequence(case):
     return res
 
 
+def explore_together(case):
+    """the equation sets used together, the way a firmware build uses them: generated one after the other into ONE directory in every
+    order (each set's files must stay what they are when the set is generated alone), all generated files linked into one shared object
+    (no symbol defined twice) from which every function of every set is callable, and a relative destination directory"""
+    perm_i, tier = case["perm"], case["tier"]
+    res = core.Result()
+    ES = equation_sets()
+    order_names = ["rdd2", "rdd2_loglinear", "bezier", "estimator", "mr_ref_traj"]
+    perms = list(itertools.permutations(range(len(order_names))))
+    # a covering subset of the 120 orders: every ordered pair of sets appears in some order (quick), all orders (thorough)
+    if tier != "thorough":
+        perms = [perms[i] for i in (0, 119, 33, 86, 57, 14)]
+    perm = perms[perm_i % len(perms)]
+    tmp = tempfile.mkdtemp(prefix="c09t_", dir=os.environ.get("VERIF_SCRATCH") or None)
+    try:
+        alone = {}
+        for nm in order_names:
+            alone[nm] = _generate(ES[nm], os.path.join(tmp, "alone_" + nm), {})
+        shared = os.path.join(tmp, "shared")
+        res.count("evaluations")
+        res.count("programs", len(order_names))
+        res.nontrivial.add(hash(("together", perm)))
+        res.nontrivial.add(hash(("together", perm, 1)))
+        for i in perm:
+            try:
+                _generate(ES[order_names[i]], shared, {})
+            except Exception as ex:
+                res.fail(site=order_names[i] + ".generate_code", clause="generation_succeeds", cls="shared_directory", detail=dict(order=[order_names[j] for j in perm], error="%s: %s" % (type(ex).__name__, str(ex)[:300])),
+                         sub="together", case=case)
+        have = {}
+        for root, _, files in os.walk(shared):
+            for fn in sorted(files):
+                have[fn] = open(os.path.join(root, fn)).read()
+        for nm in order_names:
+            bad = [f for f, txt in alone[nm].items() if have.get(f) != txt]
+            if bad:
+                res.fail(site=nm + ".generate_code", clause="files_of_a_set_unaffected_by_generating_other_sets_into_the_same_directory", cls="shared_directory",
+                         detail=dict(order=[order_names[j] for j in perm], missing_or_changed=bad[:6]), sub="together", case=case)
+        res.outcomes.add(hash(tuple(sorted(have))))
+        # link everything into one shared object
+        if perm_i == 0:
+            # (the simulator set re-uses the names `constants` / `get_state` of the estimator set by design: it is linked in its own object)
+            cfiles = sorted(os.path.join(shared, f) for f in have if f.endswith(".c") and f != "casadi_sim.c")
+            so = os.path.join(tmp, "all.so")
+            r = subprocess.run(["gcc", "-O0", "-fPIC", "-shared", "-I", CASADI_INC, "-o", so] + cfiles + ["-lm"], capture_output=True, text=True)
+            res.count("evaluations")
+            if r.returncode != 0:
+                res.fail(site="all_sets", clause="generated_files_link_into_one_program", cls="link", detail=dict(files=[os.path.basename(c) for c in cfiles], diagnostics=r.stderr[-700:]), sub="together", case=case)
+            else:
+                lib = ctypes.CDLL(so)
+                for nm in order_names:
+                    E = ES[nm]
+                    for setn, fns in E["sets"].items():
+                        if setn == "sim":
+                            continue
+                        fdict = fns
+                        for key, f in fdict.items():
+                            res.count("evaluations")
+                            if not isinstance(f, ca.Function):
+                                continue
+                            if not hasattr(lib, f.name()):
+                                res.fail(site=nm + "." + f.name(), clause="symbol_exported", cls="link", detail={}, sub="together", case=case)
+            # relative destination directory, several sets in one call (generic generator) and one set (model generators)
+            cwd = os.getcwd()
+            work = os.path.join(tmp, "work")
+            os.makedirs(work)
+            try:
+                os.chdir(work)
+                for nm in ("estimator_generic", "estimator", "rdd2", "mr_ref_traj"):
+                    res.count("evaluations")
+                    rel = "gen_" + nm
+                    try:
+                        got = _generate(ES[nm], rel, {})
+                    except Exception as ex:
+                        res.fail(site=nm + ".generate_code", clause="generation_succeeds", cls="relative_directory", detail=dict(error="%s: %s" % (type(ex).__name__, str(ex)[:300])), sub="together", case=case)
+                        continue
+                    want = _generate(ES[nm], os.path.join(tmp, "abs_" + nm), {})
+                    flat = set(os.listdir(os.path.join(work, rel))) if os.path.isdir(os.path.join(work, rel)) else set()
+                    if got != want or not set(want) <= flat:
+                        res.fail(site=nm + ".generate_code", clause="relative_destination_directory_receives_the_same_files", cls="relative_directory",
+                                 detail=dict(expected=sorted(want), found_in_directory=sorted(flat), found_below=sorted(got)), sub="together", case=case)
+                    if os.getcwd() != work:
+                        res.fail(site=nm + ".generate_code", clause="working_directory_unchanged", cls="relative_directory", detail=dict(cwd=os.getcwd()), sub="together", case=case)
+                        os.chdir(work)
+            finally:
+                os.chdir(cwd)
+    finally:
+        shutil.rmtree(tmp, ignore_errors=True)
+    res.samples.append(dict(together_order=[order_names[j] for j in perm]))
+    return res
+
+
+class _Tog:
+    chunks = 1
+
+    def cases(self, tier, seed):
+        return [dict(sub="together", tier=tier, perm=i) for i in range(120 if tier == "thorough" else 6)]
+
+    def run(self, case):
+        return explore_together(case)
+
+
 def explore_script(case):
     """the model modules are also run as scripts (`python -m cyecca.models.<m> <dest>`), which is how the shipped C files are produced:
     the script's output must be byte-identical to the output of the same export list generated through the API in this process"""
@@ -503,5 +605,5 @@ class _Sub:
         return explore(case)
 
 
-SUBCHECKS = {"gen": _Sub(), "seq": _Seq(), "script": _Script()}
-REPLAY = {"gen": lambda c: explore(c).fails, "seq": lambda c: explore_sequence(c).fails, "script": lambda c: explore_script(c).fails}
+SUBCHECKS = {"together": _Tog(), "gen": _Sub(), "seq": _Seq(), "script": _Script()}
+REPLAY = {"together": lambda c: explore_together(c).fails, "gen": lambda c: explore(c).fails, "seq": lambda c: explore_sequence(c).fails, "script": lambda c: explore_script(c).fails}
